@@ -278,10 +278,30 @@ def _isalnum(interp, args, node):
 def stream_leafs(get_stream):
     def rd(tag, store=True):
         def f(interp, args, node):
-            st = get_stream(interp)
-            v = st.take(tag)
-            if v is None:
-                return 0
+            buf = args[0]
+            local = None
+            if isinstance(buf, Ptr):
+                try:
+                    b = interp.load(buf.c, buf.k)
+                except PEError:
+                    b = None
+                if isinstance(b, dict) and '_tokens' in b:
+                    local = b
+            if local is not None:
+                # a Buffer value that carries its own scripted contents (constant expressions of the module)
+                pos = local.get('_pos', 0)
+                toks = local['_tokens']
+                if pos >= len(toks):
+                    return 0
+                t, v = toks[pos]
+                if t != tag:
+                    raise ScriptMismatch('decoder asked for %s but the buffer holds %s at position %d' % (tag, t, pos))
+                local['_pos'] = pos + 1
+            else:
+                st = get_stream(interp)
+                v = st.take(tag)
+                if v is None:
+                    return 0
             p = args[1]
             if isinstance(p, Ptr):
                 interp.store(p.c, p.k, v)
@@ -320,8 +340,33 @@ def escaped_leafs(interp_get_real):
     return {'wasmCWriteStringEscaped': string_escaped, 'wasmCWriteFileEscaped': file_escaped}
 
 
+_CTYPE = None
+
+
+def _ctype_b_loc(interp, args, node):
+    """glibc's isalnum() expands to (*__ctype_b_loc())[c] & _ISalnum: provide the C-locale table (bit 8 = alnum,
+    bit 0x800 = digit, 0x400 = alpha as in <ctype.h> for little-endian hosts)"""
+    global _CTYPE
+    if _CTYPE is None:
+        tab = []
+        for c in range(-128, 256):
+            v = 0
+            if 0 <= c < 128:
+                ch = chr(c)
+                if ch.isalnum():
+                    v |= 8
+                if ch.isalpha():
+                    v |= 0x400
+                if ch.isdigit():
+                    v |= 0x800
+            tab.append(v)
+        _CTYPE = {'v': Ptr(tab, 128)}
+    return Ptr(_CTYPE, 'v')
+
+
 def base_leafs():
     L = {
+        '__ctype_b_loc': _ctype_b_loc,
         'stringBuilderInitialize': _sb_init,
         'stringBuilderReset': _sb_reset,
         'stringBuilderFree': _sb_free,
